@@ -2146,8 +2146,9 @@ pub fn set_index(
                     }
                     Ok(())
                 } else {
-                    todo!("assgn to slice")
-                    // set_index(pythonic_mut(&mut Rc::make_mut(v), i)?, rest, value)
+                    Err(NErr::type_error(
+                        "can't assign to a slice (use `every` to assign each element)".to_string(),
+                    ))
                 }
             }
             (Seq::String(s), EvaluatedIndexOrSlice::Index(i)) if rest.is_empty() => match value {
